@@ -1186,6 +1186,14 @@ func (g *gen) entity() *Entity {
 		e.EventsInGet = rapid.Bool().Draw(t, "eig")
 		if rapid.Bool().Draw(t, "dsf") {
 			e.DefaultStatusFilter = []string{e.Statuses[rapid.IntRange(0, len(e.Statuses)-1).Draw(t, "dsfwhich")].Name}
+			if len(e.Statuses) >= 3 && rapid.Bool().Draw(t, "dsfseveral") {
+				// several, in an order that is neither declaration nor alphabetical order
+				e.DefaultStatusFilter = nil
+				for _, i := range rapid.Permutation([]int{0, 1, 2}).Draw(t, "dsforder") {
+					e.DefaultStatusFilter = append(e.DefaultStatusFilter, e.Statuses[i].Name)
+				}
+				g.cls("default-status-filter:several")
+			}
 			if strings.ContainsAny(e.DefaultStatusFilter[0], "0123456789") {
 				g.cls("default-status-filter:name-with-digit")
 			}
